@@ -1083,3 +1083,45 @@ T("C15", "twin-bind-in-local", (EST, """    return [
             EstimationTask(estimation_task.operator, bound, estimation_task.number_of_shots)
         )
     return bound_tasks"""))
+
+# ----------------------------------------------------------------------------- C19
+SYE = "circuits/symbolic/sympy_expressions.py"
+TRA = "circuits/symbolic/translations.py"
+SRT = "circuits/symbolic/_sorting.py"
+EXP = "circuits/symbolic/expressions.py"
+
+B("C19", "default-arm-passes", (SYE, """    raise NotImplementedError(
+        f"Expression {expression} of type {type(expression)} is currently not supported"
+    )""", "    return None"), rule="C19-D1")
+B("C19", "lookup-before-membership-test", (TRA, """    if function_call.name not in dialect.known_functions:
+        raise ValueError(f"Function {function_call.name} is unknown in this dialect.")
+
+    return dialect.known_functions[function_call.name](""", """    return dialect.known_functions.get(function_call.name, lambda *args: args[0])("""), rule="C19-D1")
+B("C19", "add-not-folded", (SYE, '        "add": reduction(operator.add),', '        "add": operator.add,'), rule="C19-D2")
+B("C19", "sqrt-removed-from-dialect", (SYE, '        "sqrt": sympy.sqrt,\n', ''), rule="C19-D2")
+B("C19", "div-is-floordiv", (SYE, '        "div": operator.truediv,', '        "div": operator.floordiv,'), rule="C19-D2")
+B("C19", "sub-maps-to-add", (SYE, '        "sub": operator.sub,', '        "sub": operator.add,'), rule="C19-D2")
+B("C19", "tan-maps-to-tanh", (SYE, '        "tan": sympy.tan,', '        "tan": sympy.tanh,'), rule="C19-D2")
+B("C19", "reciprocal-either-position", (SYE, "    return len(args) == 2 and isinstance(args[1], sympy.Pow) and args[1].args[1] == -1", "    return len(args) == 2 and any(\n        isinstance(arg, sympy.Pow) and arg.args[1] == -1 for arg in args\n    )"), rule="C19-D3")
+B("C19", "reciprocal-predicate-other-position", (SYE, "    return len(args) == 2 and isinstance(args[1], sympy.Pow) and args[1].args[1] == -1", "    return len(args) == 2 and isinstance(args[0], sympy.Pow) and args[0].args[1] == -1"), rule="C19-D3")
+B("C19", "reciprocal-arity-unpinned", (SYE, "    return len(args) == 2 and isinstance(args[1], sympy.Pow) and args[1].args[1] == -1", "    return len(args) >= 2 and isinstance(args[1], sympy.Pow) and args[1].args[1] == -1"), rule="C19-D3")
+B("C19", "div-operands-swapped", (SYE, "                expression_from_sympy(mul.args[0]),\n                expression_from_sympy(mul.args[1].args[0]),", "                expression_from_sympy(mul.args[1].args[0]),\n                expression_from_sympy(mul.args[0]),"), rule="C19-D3")
+B("C19", "sub-forgets-to-negate", (SYE, "                expression_from_sympy(_negate_sympy_expr(add.args[1])),", "                expression_from_sympy(add.args[1]),"), rule="C19-D3")
+B("C19", "pow-reciprocal-of-exponent", (SYE, '        return FunctionCall("div", (1, expression_from_sympy(power.args[0])))', '        return FunctionCall("div", (1, expression_from_sympy(power.args[1])))'), rule="C19-D3")
+B("C19", "sqrt-for-exponent-two", (SYE, "    elif power.args[1] == 0.5:", "    elif power.args[1] == 2:"), rule="C19-D3")
+B("C19", "negate-is-identity", (SYE, "    return expr * (-1)", "    return expr * 1"), rule="C19-D3")
+B("C19", "rational-truncated", (SYE, "def native_float_from_sympy_rational(number: sympy.Rational):\n    return float(number)", "def native_float_from_sympy_rational(number: sympy.Rational):\n    return int(number)"), rule="C19-D4")
+B("C19", "imaginary-unit-sign", (SYE, "    return 1j", "    return -1j"), rule="C19-D4")
+B("C19", "tuple-reversed", (SYE, "    return tuple(expression_from_sympy(arg) for arg in args)", "    return tuple(expression_from_sympy(arg) for arg in reversed(args))"), rule="C19-D4")
+B("C19", "translate-tuple-reversed", (TRA, "    return tuple(translate_expression(element, dialect) for element in expression_tuple)", "    return tuple(translate_expression(element, dialect) for element in expression_tuple)[::-1]"), rule="C19-D4")
+B("C19", "reduction-right-fold", (EXP, "        return reduce(operator, args)", "        return reduce(operator, reversed(args))"), rule="C19-D4")
+B("C19", "number-factory-rounds", (SYE, "    number_factory=lambda number: number,", "    number_factory=lambda number: round(number, 6),"), rule="C19-D4")
+B("C19", "drop-rational-arm", (SYE, "@expression_from_sympy.register\ndef native_float_from_sympy_rational(number: sympy.Rational):\n    return float(number)\n", ""), rule="C19-D4")
+B("C19", "digit-groups-zero-padded", (SRT, "    return int(text) if text.isdigit() else text", "    return text.zfill(6) if text.isdigit() else text"), rule="C19-D5")
+B("C19", "split-without-capture", (SRT, 'for group in re.split(r"(\\d+)", symbol.name)', 'for group in re.split(r"\\d+", symbol.name)'), rule="C19-D5")
+B("C19", "split-single-digits", (SRT, 'for group in re.split(r"(\\d+)", symbol.name)', 'for group in re.split(r"(\\d)", symbol.name)'), rule="C19-D5")
+B("C19", "revlex-not-reversed", (SRT, "    return list(reversed(natural_key(symbol)))", "    return list(natural_key(symbol))"), rule="C19-D5")
+T("C19", "twin-reorder-dialect", (SYE, '        "cos": sympy.cos,\n        "sin": sympy.sin,', '        "sin": sympy.sin,\n        "cos": sympy.cos,'))
+T("C19", "twin-negate-unary-minus", (SYE, "    return expr * (-1)", "    return -expr"))
+T("C19", "twin-revlex-slice", (SRT, "    return list(reversed(natural_key(symbol)))", "    return natural_key(symbol)[::-1]"))
+T("C19", "twin-extra-dialect-function", (SYE, '        "tan": sympy.tan,', '        "tan": sympy.tan,\n        "log": sympy.log,'))
